@@ -1,4 +1,5 @@
-(* C15 — the property, clause by clause.  Only statements; every proof is `exact lemma`. *)
+(* C15 — the property, clause by clause.  Statements; every proof is `exact lemma` or a few lines
+   that unfold a definition before applying one. *)
 From Coq Require Import ZArith List Bool String Permutation.
 From V.C15 Require Import Model Spec MethodTable Run StrModel Proofs StrProofs.
 Open Scope Z_scope.
@@ -18,6 +19,23 @@ Print Assumptions table_matches_model.
 Theorem call_is_spec : forall m l args p, spec_call m l args = Some p -> call m l args = p.
 Proof. exact call_is_spec_l. Qed.
 Print Assumptions call_is_spec.
+
+(* "every combination of supplied and omitted arguments" written with NAMED arguments
+   ($a->slice(end: 2)): when the binder accepts the call, every positional argument stays where it
+   was, every  name: v  arrives at the position of the single (non-variadic) parameter called
+   `name`, behind the positional ones; the call is then the positional call on that argument list
+   (call_is_spec applies to it).  bind_named rejects unknown names, variadic parameters and
+   parameters that already have an argument. *)
+Theorem named_binding : forall pn pos named args,
+  bind_named pn pos named = Some args ->
+  (forall j, (j < List.length pos)%nat -> nth j args ENull = nth j pos ENull) /\
+  (forall n v, In (n, v) named ->
+     exists i, pindex pn n 0 = Some i /\ (List.length pos <= i)%nat /\ nth i args ENull = v).
+Proof. exact named_binding_l. Qed.
+Theorem named_parameter_exists : forall pn n i, pindex pn n 0 = Some i -> nth_error pn i = Some (n, PSingle).
+Proof. intros pn n i H. destruct (pindex_sound _ _ _ _ H) as [_ B]. rewrite Nat.sub_0_r in B. exact B. Qed.
+Print Assumptions named_binding.
+Print Assumptions named_parameter_exists.
 
 (* callback methods, for EVERY callback f (any Gallina function of element, index, array):
    map, filter, find, findIndex, forEach, every, some, flatMap *)
@@ -92,3 +110,35 @@ Theorem substring_is_js : forall s a e slots,
   m_substring s slots = Some (js_substring s a e).
 Proof. exact m_substring_spec. Qed.
 Print Assumptions string_call_is_spec.
+
+(* sspec is written with the SAME byte-string functions as scall (only substring has a spec of its
+   own), so string_call_is_spec says little beyond the argument coercion.  What those functions
+   compute, stated without reference to how:
+   startsWith / endsWith: true exactly when the receiver is  x ++ r  /  r ++ x  (as bytes);
+   indexOf: the byte offset of the LEFTMOST occurrence, -1 exactly when there is none;
+   split on a non-empty separator: joining the pieces with the separator gives the receiver back *)
+Theorem string_startsWith_iff : forall s x,
+  scall SStartsWith s [EStr x] = Some (EBool true) <-> exists r, s = (x ++ r)%string.
+Proof. intros s x. cbn. rewrite <- prefixb_iff. split; [intro H; injection H; auto | intros ->; reflexivity]. Qed.
+Theorem string_endsWith_iff : forall s x,
+  scall SEndsWith s [EStr x] = Some (EBool true) <-> exists r, s = (r ++ x)%string.
+Proof. intros s x. cbn. rewrite <- suffixb_iff. split; [intro H; injection H; auto | intros ->; reflexivity]. Qed.
+Theorem string_indexOf_leftmost : forall s x,
+  exists i, scall SIndexOf s [EStr x] = Some (EInt i) /\
+  ((i = -1 /\ forall pre post, s <> (pre ++ x ++ post)%string) \/
+   (exists pre post, s = (pre ++ x ++ post)%string /\ i = slen pre /\
+      forall pre' post', s = (pre' ++ x ++ post')%string -> slen pre <= slen pre')).
+Proof. intros s x. exists (sindex x s). split; [reflexivity | exact (sindex_leftmost_l x s)]. Qed.
+Theorem string_split_join : forall s x l,
+  x <> EmptyString -> scall SSplit s [EStr x] = Some (EArr (map EStr l)) -> sjoin x l = s.
+Proof.
+  intros s x l Hx H. cbn in H. injection H as H.
+  assert (E : l = split_by x s).
+  { revert H. generalize (split_by x s). induction l as [|a l IH]; intros [|b m] H; try discriminate; [reflexivity|].
+    cbn in H. injection H as -> H. f_equal. apply IH. exact H. }
+  subst l. apply split_join_l. exact Hx.
+Qed.
+Print Assumptions string_startsWith_iff.
+Print Assumptions string_endsWith_iff.
+Print Assumptions string_indexOf_leftmost.
+Print Assumptions string_split_join.
